@@ -83,6 +83,49 @@ func checkC15(c *Ctx) {
 			}
 		}
 	}
+	// slices with spare capacity: the bounds are the LENGTH, not the capacity
+	for _, lc := range [][2]int{{0, 16}, {1, 2}, {10, 100}, {256, 65536}, {32768, 65536}} {
+		back := make([]uint8, lc[1])
+		dm := z80.DumbMemory(back[:lc[0]])
+		dio := z80.DumbIO(back[:lc[0]:lc[1]])
+		for _, a := range []int{lc[0] - 1, lc[0], lc[0] + 1, lc[1] - 1, lc[1]} {
+			if a < 0 || a > 0xFFFF {
+				continue
+			}
+			var g uint8
+			if p := guard(func() { dm.Set(uint16(a), 0x77); g = dm.Get(uint16(a)) }); p != nil {
+				fail("DumbMemory-cap", int64(a), c15Op{"DumbMemory", lc[0], []string{fmt.Sprintf("len %d cap %d Set/Get(%04X)", lc[0], lc[1], a)}}, fmt.Sprintf("panic: %v", p))
+				continue
+			}
+			n += 2
+			nt++
+			want := uint8(0)
+			if a < lc[0] {
+				want = 0x77
+			}
+			if g != want || (a >= lc[0] && a < lc[1] && back[a] != 0) {
+				fail("DumbMemory-cap", int64(a), c15Op{"DumbMemory", lc[0], []string{fmt.Sprintf("len %d cap %d Set/Get(%04X)", lc[0], lc[1], a)}}, fmt.Sprintf("DumbMemory with len %d and capacity %d: Set/Get(%04X) gave %02X (want %02X), byte beyond the length written: %v", lc[0], lc[1], a, g, want, a >= lc[0] && a < lc[1] && back[a] != 0))
+			}
+			if a <= 255 && a < lc[1] {
+				back[a] = 0
+				var gi uint8
+				if p := guard(func() { dio.Out(uint8(a), 0x66); gi = dio.In(uint8(a)) }); p != nil {
+					fail("DumbIO-cap", int64(a), c15Op{"DumbIO", lc[0], nil}, fmt.Sprintf("panic: %v", p))
+					continue
+				}
+				wanti := uint8(0)
+				if a < lc[0] {
+					wanti = 0x66
+				}
+				if gi != wanti || (a >= lc[0] && a < lc[1] && back[a] != 0) {
+					fail("DumbIO-cap", int64(a), c15Op{"DumbIO", lc[0], nil}, fmt.Sprintf("DumbIO with len %d and capacity %d: Out/In(%02X) gave %02X (want %02X)", lc[0], lc[1], a, gi, wanti))
+				}
+			}
+			if a < lc[1] {
+				back[a] = 0
+			}
+		}
+	}
 	// Put: every block position class for every length (blocks lying inside the slice, incl. ending exactly at len
 	// and at 0x10000, the empty block, the whole slice)
 	for _, l := range []int{0, 1, 2, 255, 256, 257, 32768, 65535, 65536} {
